@@ -10,4 +10,5 @@ CONSTANTS NSub = 2
 INVARIANT FilterAgreesWithListing
 INVARIANT RenameRules
 INVARIANT DirEventsIgnored
+VIEW view
 CHECK_DEADLOCK FALSE
